@@ -65,6 +65,7 @@ type c22World struct {
 	reported map[string]bool // nodes whose (first) completion has been handed to the coordinator
 	startMembers string
 	earlyMember  string // non-empty: the member list changed before an instruction holder reported
+	dir          string // scratch directory of this world (removed after the execution)
 	endedAtEnter int // number of ended jobs when RESIZING was entered
 	handlerErr []string
 	nextID   int32
@@ -243,7 +244,7 @@ func c22Build(sc c22Scenario, x *vsched.X) *c22World {
 	c.Path = dir + "/cluster"
 	c.Topology = newTopology()
 	c.holder = h
-	w := &c22World{sc: sc, x: x, c: c, h: h, instr: map[string]*ResizeInstruction{}, okFrom: map[string]bool{},
+	w := &c22World{dir: dir, sc: sc, x: x, c: c, h: h, instr: map[string]*ResizeInstruction{}, okFrom: map[string]bool{},
 		instrJ: map[int64]map[string]bool{}, okJ: map[int64]map[string]bool{}, seenJobs: map[int64]bool{}, reported: map[string]bool{}}
 	c.broadcaster = w
 	for _, id := range []string{"A", "B"} {
@@ -389,6 +390,7 @@ func TestVerif_C22(t *testing.T) {
 					c.NotExhaustive(fmt.Sprintf("execution cap %d per scenario reached in %q", maxExec, name))
 					vx.Guard(func() { close(w.c.closing) })
 					vx.Guard(func() { w.h.Close() })
+					os.RemoveAll(w.dir)
 					return false
 				}
 				c.AddEval(1)
@@ -396,9 +398,11 @@ func TestVerif_C22(t *testing.T) {
 				cs := map[string]interface{}{"scenario": name, "choices": choices, "schedule": strings.Join(tr.Schedule, " ")}
 				key := strings.SplitN(sc.name, " ", 2)[0]
 				defer func() {
-					// stop the job loop and release the holder
+					// stop the job loop, release the holder and its scratch directory (tens of thousands of
+					// executions per scenario: the tmpfs runs out of inodes otherwise)
 					vx.Guard(func() { close(w.c.closing) })
 					vx.Guard(func() { w.h.Close() })
+					os.RemoveAll(w.dir)
 				}()
 				switch {
 				case tr.Diverged != "":
